@@ -1806,40 +1806,13 @@ theorem exec_facts :
     execEnable.all (fun s => !s.contains 32 && leafOK execN (dashToUnderscore (lower s)) (execKw s)) = true := by
   decide +kernel
 
-theorem noBackslash_drop (s : Bytes) (n : Nat) (h : noBackslash s = true) : noBackslash (s.drop n) = true := by
-  simp only [noBackslash, Bool.not_eq_eq_eq_not, Bool.not_true, List.contains_eq_mem, decide_eq_false_iff_not] at h ⊢
-  exact fun hm => h (List.mem_of_mem_drop hm)
-
-theorem noBackslash_take (s : Bytes) (n : Nat) (h : noBackslash s = true) : noBackslash (s.take n) = true := by
-  simp only [noBackslash, Bool.not_eq_eq_eq_not, Bool.not_true, List.contains_eq_mem, decide_eq_false_iff_not] at h ⊢
-  exact fun hm => h (List.mem_of_mem_take hm)
-
-theorem partition2_snd_mem (sep s : Bytes) : ∀ x ∈ (partition2 sep s).2, x ∈ s := by
-  induction s with
-  | nil => simp [partition2]
-  | cons c cs ih =>
-    intro x hx
-    simp only [partition2] at hx
-    split at hx
-    · exact List.mem_of_mem_drop hx
-    · exact List.mem_cons_of_mem _ (ih x hx)
-
-theorem noBackslash_slice (s : Bytes) (h : noBackslash s = true) :
-    noBackslash (pySliceTo (pySliceFrom (partition2 [32] s).2 1) (some (-1))) = true := by
-  have h2 : noBackslash (partition2 [32] s).2 = true := by
-    simp only [noBackslash, Bool.not_eq_eq_eq_not, Bool.not_true, List.contains_eq_mem, decide_eq_false_iff_not] at h ⊢
-    exact fun hm => h (partition2_snd_mem _ _ _ hm)
-  simp only [pySliceFrom, pySliceTo]
-  split <;> split <;> first | exact noBackslash_take _ _ (noBackslash_drop _ _ h2) | exact noBackslash_drop _ _ h2
-
 theorem spec_execItem {s : Bytes} (h : wfExecItem (some s) = true) :
     ∃ f, execItem (some s) = .ok f ∧ specForest execN execPath f.reparsed = expExecItem s := by
   obtain ⟨hlist, hct, hcrt, hen⟩ := exec_facts
   refine ⟨_, rfl, ?_⟩
   simp only [wfExecItem, Bool.and_eq_true, Bool.or_eq_true, decide_eq_true_eq] at h
-  obtain ⟨hnb, hcase⟩ := h
   rw [reparsed_append, specForest_append]
-  rcases hcase with hmem | ⟨⟨hsp, hname⟩, hlen⟩
+  rcases h with hmem | ⟨⟨hsp, hname⟩, hlen⟩
   · have hm : s ∈ execEnable := by simpa using hmem
     have := List.all_eq_true.mp hen s hm
     simp only [Bool.and_eq_true, Bool.not_eq_eq_eq_not, Bool.not_true] at this
@@ -1857,16 +1830,15 @@ theorem spec_execItem {s : Bytes} (h : wfExecItem (some s) = true) :
         exact absurd this.1 (by simp)
     simp only [hsp, if_true, hnm, Bool.false_eq_true, if_false, PForest.reparsed, specForest_nil, List.append_nil,
       expExecItem]
-    have hval := noBackslash_slice s hnb
     rcases hname with h1 | h1
     · have e1 : k "CreateThread" = b "CreateThread" := rfl
       simp only [h1]
-      rw [if_pos e1, spec_stmt' hct, leafEntry_list hlist, str_roundtrip _ hval]
+      rw [if_pos e1, spec_stmt' hct, leafEntry_list hlist, C12.roundtrip]
       rfl
     · have e1 : ¬ k "CreateRemoteThread" = b "CreateThread" := by decide +kernel
       have e2 : k "CreateRemoteThread" = b "CreateRemoteThread" := rfl
       simp only [h1]
-      rw [if_neg e1, if_pos e2, spec_stmt' hcrt, leafEntry_list hlist, str_roundtrip _ hval]
+      rw [if_neg e1, if_pos e2, spec_stmt' hcrt, leafEntry_list hlist, C12.roundtrip]
       rfl
 
 theorem spec_execKids (l : List (Option Bytes)) (h : l.all wfExecItem = true) :
@@ -2588,7 +2560,7 @@ theorem ne_execItem {s : Bytes} (h : wfExecItem (some s) = true) :
         · rfl
     · rfl
   · simp only [wfExecItem, Bool.and_eq_true, Bool.or_eq_true, decide_eq_true_eq] at h
-    rcases h.2 with hm | ⟨⟨hsp, hname⟩, _⟩
+    rcases h with hm | ⟨⟨hsp, hname⟩, _⟩
     · simp only [hm, if_true]
       generalize (if s.contains 32 then _ else PForest.nil : PForest) = sp
       cases sp <;> rfl
@@ -3098,11 +3070,9 @@ theorem tk_injKids (l : List (Bool × Bytes)) : tokensOK (injKids l) = true := b
     | none => rfl
     | some v => dsimp only; split; rfl; exact tk_stmt _ _ (by simp [litOK_bytes])
 
-theorem tk_execItem {s : Bytes} (h : wfExecItem (some s) = true) :
-    ∃ f, execItem (some s) = .ok f ∧ tokensOK f = true := by
+theorem tk_execItem (s : Bytes) : ∃ f, execItem (some s) = .ok f ∧ tokensOK f = true := by
   refine ⟨_, rfl, ?_⟩
-  simp only [wfExecItem, Bool.and_eq_true] at h
-  have hval := litOK_str _ (noBackslash_slice s h.1)
+  have hval := litOK_bytes (pySliceTo (pySliceFrom (partition2 [32] s).2 1) (some (-1)))
   rw [tk_append, Bool.and_eq_true]
   constructor
   · split
@@ -3127,7 +3097,7 @@ theorem tk_execKids (l : List (Option Bytes)) (h : l.all wfExecItem = true) :
     cases i with
     | none => simp [wfExecItem] at h
     | some s =>
-      obtain ⟨f, hf, hnf⟩ := tk_execItem h.1
+      obtain ⟨f, hf, hnf⟩ := tk_execItem s
       exact ⟨f ++ r, by simp only [execKids, hf, hr], by rw [tk_append, hnf, hnr]; rfl⟩
 
 structure TKInv (st : St) : Prop where
